@@ -1,11 +1,14 @@
 \* C23 quick: every response shape with up to 2 blocks x 2 points x close x follow-up (repaired design)
+\* x three callback configurations in which each of BlockFunc / BlockRawFunc / BatchDoneFunc is once set and once
+\* unset (the thorough tier runs all eight)
 CONSTANTS
   Points = {1, 2}
   MaxBlocks = 2
   HashCheck = TRUE
   Collect = TRUE
   FollowUps = {"none", "block", "range"}
+  Configs = {"bf+bdf", "raw", "bdf"}
   Emit = TRUE
 SPECIFICATION Spec
-INVARIANTS TypeOK GetBlockSound GetBlockExact RangeOrder RangeReturn BusyLock EmitOutcome
-PROPERTIES Termination RangeCompletes
+INVARIANTS TypeOK GetBlockSound GetBlockExact RangeOrder RangeReturn BusyLock BatchDoneFuncIffConfigured ReleasedAtBatchDone BlockCallbackPresent EmitOutcome
+PROPERTIES Termination RangeCompletes EveryRequestSent
